@@ -1460,8 +1460,7 @@ REGISTRY = {
                     "Coq with Cli.exit_code); any panic/abort/hang or an output file after a refusal is a violation.",
         trusted_base=["modelled: the decision skeleton of main.rs, io::simple::read, io::check_data_consistency; serde_json text -> Value and clap "
                       "parsing are trusted libraries; the CdE reader is the model of C12 (total by construction, exact correspondence there); time / "
-                      "memory exhaustion for absurd sizes (>= 5000 course places) is a resource limit outside the claim, as are thread-creation failure for an absurd "
-                      "--num-threads, the memory of the possible-rooms listing (courses x rooms), a closed stdout with --print and the u32 statistics "
+                      "memory exhaustion for absurd sizes (>= 5000 course places) is a resource limit outside the claim, as are the memory of the possible-rooms listing (courses x rooms), a closed stdout with --print and the u32 statistics "
                       "counters after 2^32 subproblems (audit of all panic sites, DESIGN 10.4a D16)"],
         assumptions=["'malformed' = some stage returns Err, as predicted by the reader model (simple format) or by construction / the same library "
                      "functions main.rs calls (other stages); for CdE exports additionally: an optional integer field (max_size, min_size, course_id, "
